@@ -11,7 +11,8 @@ ID = "C11"
 PARALLEL = 16
 CASE_TIMEOUT_S = 30
 RULE = ("exhaustive: every dataset of n <= 10 (quick: n <= 7) sorted entries x all 2^(n-1) ways of cutting it into consecutive "
-        "chunks: group-by on every key pattern (which neighbours share a key) for the encoded-ragged key column (first=last "
+        "chunks: group-by on every key pattern (which neighbours share a key; key texts ordinary names and, as a second dimension, "
+        "neighbouring keys differing only by edge blanks / case / control characters / number spelling) for the encoded-ragged key column (first=last "
         "shortcut; every (pattern, chunking) pair for n <= 9 / 7, a seeded 15% of the 4^9 pairs for n = 10) and for string and "
         "integer key columns (n <= 8 / 5); an empty chunk at every position of every chunking of n <= 4; mean (1-d, axis 0, "
         "axis 1) / bincount / quantile / histogram (explicit edges, bins+range) / k-mer counts (k=1,2,3; 4- and 5-letter "
